@@ -308,6 +308,18 @@ def run(tier, seed, replay):
             for q, got in zip(qs[:: max(1, len(qs) // 12)], vals[:: max(1, len(qs) // 12)]):
                 if complex(c2(q)) != got:
                     v(f"{name}:order{eff_order}", f"{name} of an order {eff_order} coefficient differs at t={q!r}", dict(data, t=q))
+        # the coefficient owns its samples: what the caller does to the arrays afterwards does not reach it
+        sb = np.ascontiguousarray(np.asarray(s, dtype=complex))
+        tb = np.ascontiguousarray(np.asarray(t, dtype=float))
+        ca = qutip.coefficient(sb, tlist=tb, order=order, boundary_conditions=bc)
+        before = [complex(ca(q)) for q in qs[:: max(1, len(qs) // 12)]]
+        sb *= 3.0
+        sb += 1.0
+        tb += 0.37 * (tb[-1] - tb[0] + 1.0)
+        after = [complex(ca(q)) for q in qs[:: max(1, len(qs) // 12)]]
+        rep.evaluations += 1
+        if before != after:
+            v(f"aliases-input:order{eff_order}", f"an order {eff_order} coefficient built from arrays changes when the caller's arrays are modified afterwards", dict(data))
         # sum with another coefficient on the same grid and on a shifted grid
         s2 = gen_samples(rng, n)
         cb = qutip.coefficient(s2, tlist=t, order=order, boundary_conditions=bc)
